@@ -2,7 +2,7 @@
 
 use crate::hist::{dispatch, history_strategy, CaseInfo, HistParams, History, Obs, Violation};
 use crate::runner::{Check, Ctx, Tier};
-use proptest::strategy::{BoxedStrategy, Strategy};
+use proptest::prelude::*;
 
 pub struct C01;
 
@@ -24,7 +24,8 @@ impl Check for C01 {
         "proptest histories of commits (sorted batches of read/write/delete/read-then-write over clustered and random keys, \
          value lengths straddling 1332/1333, 4092/4093, 15*4092(+1), 16*4092, 64KiB) interleaved with reopens under random \
          configurations; after every commit Nomt::read and a fresh Session::read are compared with a sequential map for touched keys, \
-         32 untouched keys and absent probes (bit flips of present keys), full scan every 4th step and after a final reopen. \
+         32 untouched keys and absent probes (bit flips of present keys), full scan every 4th step and after a final reopen. One case in 24 is the forced shape 'bottom-level branch node filled to the byte' \
+         (a bulk of two-to-a-leaf values filling the single branch node to 90..99%, then 50..70 commits of mostly one more - one leaf split, one more separator and pointer each -, optionally a 10% delete and more inserts). \
          Non-trivial = >=2 commits and (>8 KiB of in-leaf data at some point, i.e. >=2 leaves, or an overflow value present, or a delete \
          of an existing key, or an in-leaf<->overflow migration); distinct = distinct serialized case".into()
     }
@@ -38,7 +39,7 @@ impl Check for C01 {
         tier.pick(3200, 30000)
     }
     fn strategy(tier: Tier) -> BoxedStrategy<History> {
-        history_strategy(HistParams {
+        let general = history_strategy(HistParams {
             max_steps: tier.pick(10, 28),
             max_entries: tier.pick(40, 120),
             bulk_n: tier.pick(600, 4000),
@@ -49,8 +50,13 @@ impl Check for C01 {
             overlay_weight: 15,
             witness_weight: 0.0,
             ext4_weight: 6,
-        })
-        .boxed()
+        });
+        // one case in 24: a bottom-level branch node walked through its capacity byte by byte
+        if std::env::var_os("VERIF_ONLY_FAMILY").is_some() {
+            // development aid: only the forced shape
+            return crate::hist::bbn_fill_strategy(4).boxed();
+        }
+        prop_oneof![23 => general, 1 => crate::hist::bbn_fill_strategy(4)].boxed()
     }
     fn run(case: &History, ctx: &Ctx) -> Result<CaseInfo, Violation> {
         let obs = Obs {
@@ -59,6 +65,9 @@ impl Check for C01 {
         };
         let mut info = dispatch(case, &obs, &ctx.scratch, ctx.tier.pick(6 << 20, 48 << 20))?;
         info.nontrivial = nontrivial(&info, 2);
+        if crate::hist::is_bbn_fill(case) {
+            info.bump("cases_branch_node_filled_to_capacity_family");
+        }
         Ok(info)
     }
     fn brief(case: &History) -> String {
